@@ -474,7 +474,9 @@ func (vc *VC) tryCounterexample(ob *Obligation, attempt int) *Cex {
 	}
 	s := &smtSession{cmd: cmd, in: in, out: bufio.NewReaderSize(outp, 1<<20)}
 	defer s.close()
-	io.WriteString(in, head+"(check-sat)\n")
+	// without model-based quantifier instantiation the solver answers at once (sat, or unknown with the
+	// candidate model that satisfies the ground facts and the instantiated axioms)
+	io.WriteString(in, "(set-option :smt.mbqi false)\n"+head+"(check-sat)\n")
 	var res string
 	deadline := time.Now().Add(20 * time.Second)
 	for time.Now().Before(deadline) {
@@ -586,7 +588,7 @@ func runOverlayTest(repo, name, src, run string, timeout time.Duration) (string,
 	defer os.Remove(of.Name())
 	json.NewEncoder(of).Encode(ov)
 	of.Close()
-	cmd := exec.Command("go", "test", "-overlay", of.Name(), "-vet=off", "-count=1", "-timeout", "60s", "-run", run, ".")
+	cmd := exec.Command("go", "test", "-overlay", of.Name(), "-vet=off", "-count=1", "-v", "-timeout", "60s", "-run", run, ".")
 	cmd.Dir = repo
 	cmd.Env = append(os.Environ(), "GOFLAGS=-mod=mod", "GOPROXY=off", "GOSUMDB=off", "GOTOOLCHAIN=local")
 	done := make(chan struct{})
